@@ -312,7 +312,8 @@ pub fn run(opts: &Opts) -> i32 {
     let a5 = alphabet(Ver::V5);
     rep.extra("alphabet_v3", json!(a3.iter().map(|t| t.name).collect::<Vec<_>>()));
     rep.extra("alphabet_v5", json!(a5.iter().map(|t| t.name).collect::<Vec<_>>()));
-    // job list
+    // job list (interpreter stage: sequences of length <= 2 and a few random ones)
+    let interp = std::env::var("VERIF_SANITIZER").as_deref() == Ok("miri");
     let mut jobs: Vec<(Role, State, Vec<usize>)> = Vec::new();
     for role in Role::ALL {
         let n = if role.is_v5() { a5.len() } else { a3.len() };
@@ -321,7 +322,7 @@ pub fn run(opts: &Opts) -> i32 {
                 jobs.push((role, st, vec![a]));
                 for b in 0..n {
                     jobs.push((role, st, vec![a, b]));
-                    for c3 in 0..n {
+                    for c3 in 0..(if interp { 0 } else { n }) {
                         let idx = (a * n + b) * n + c3;
                         jobs.push((role, st, vec![a, b, c3]));
                         if !quick {
@@ -337,7 +338,7 @@ pub fn run(opts: &Opts) -> i32 {
         }
     }
     // random longer ones
-    let n_rand = ((if quick { 20_000.0 } else { 1_500_000.0 }) * opts.scale) as u64;
+    let n_rand = if interp { 400 } else { ((if quick { 20_000.0 } else { 1_500_000.0 }) * opts.scale) as u64 };
     let mut rng = Rng::for_case(opts.seed, "C16-rand", 0);
     for _ in 0..n_rand {
         let role = *rng.pick(&Role::ALL);
